@@ -127,6 +127,15 @@
 	#define HFSM2_BREAK_AVAILABLE()										   false
 #endif
 
+#ifdef HFSM2_VERIF
+	// verification hook: route HFSM2_BREAK() (and with HFSM2_ENABLE_ASSERT every HFSM2_ASSERT) to a handler
+	#undef  HFSM2_BREAK
+	#undef  HFSM2_BREAK_AVAILABLE
+	extern "C" void hfsm2_verif_break(const char* file, int line) noexcept;
+	#define HFSM2_BREAK()					  ::hfsm2_verif_break(__FILE__, __LINE__)
+	#define HFSM2_BREAK_AVAILABLE()											true
+#endif
+
 #ifdef _DEBUG
 	#define HFSM2_IF_DEBUG(...)										 __VA_ARGS__
 	#define HFSM2_UNLESS_DEBUG(...)
